@@ -66,13 +66,17 @@ func famLocalhost(e *env) {
 	dump := dumpStore(st)
 	index := map[string][]byte{}
 	keys := make([][]byte, 0, len(dump))
+	var small [][]byte // entries with short values keep the records small; the long ones are still drawn sometimes
 	for _, kv := range dump {
 		index[string(kv[0])] = kv[1]
 		keys = append(keys, kv[0])
+		if len(kv[1]) <= 40 {
+			small = append(small, kv[0])
+		}
 	}
 	lookup := func(k []byte) ([]byte, bool) { v, ok := index[string(k)]; return v, ok }
 
-	n := hx.N(700, 20000)
+	n := hx.N(800, 20000)
 	for i := 0; i < n; i++ {
 		// context: own height and revision
 		chainID := r.Pick([]string{"testchain1-1", "testchain1-1", "testchain1-7", "testchain", "a-b-3"})
@@ -86,7 +90,10 @@ func famLocalhost(e *env) {
 		tag := "valid"
 		height := clienttypes.NewHeight(self.RevisionNumber, uint64(r.Intn(int(min64(bh, 1<<30))+1)))
 		proof := append([]byte(nil), localhost.SentinelProof...)
-		key := keys[r.Intn(len(keys))]
+		key := small[r.Intn(len(small))]
+		if r.Chance(1, 8) {
+			key = keys[r.Intn(len(keys))]
+		}
 		if r.Chance(1, 3) {
 			key = []byte(r.Pick([]string{"verif/present", "verif/empty", "verif/\x00bin\xff", "v"}))
 		}
@@ -218,7 +225,7 @@ func famLocalhost(e *env) {
 			}
 		}
 		for j := 0; j < 2; j++ {
-			k := keys[r.Intn(len(keys))]
+			k := small[r.Intn(len(small))]
 			proj[string(k)] = index[string(k)]
 		}
 		pk := make([]string, 0, len(proj))
